@@ -302,6 +302,115 @@ func runC06(b *runner.Batch) {
 		e.checkNetmapState(nil)
 	}
 
+
+	// a subscriber that calls back into newEpoch from inside its callback (the carrier is Alphabet-witnessed with Global
+	// scope, so the nested call is witnessed too). The outer tick has stored its epoch before it notifies anybody, so a
+	// nested newEpoch(ep+d) is a tick of its own iff d >= 1 and makes the whole transaction fail otherwise (seeded change
+	// C06-7: notification moved in front of the publication).
+	reentrantTick := func(d int64) {
+		var armed util.Uint160
+		k := -1
+		for i, sub := range e.m.subs {
+			if e.m.reject[sub] {
+				return
+			}
+			if _, ok := e.pid[sub]; ok && (k < 0 || b.Rng.IntN(2) == 0) {
+				armed, k = sub, i
+			}
+		}
+		if k < 0 {
+			return
+		}
+		if r := e.w.Invoke(nil, armed, "setReenter", e.nm, d, true); !r.Halted() {
+			b.Inconclusive("probe could not be armed: " + r.Fault)
+			return
+		}
+		b.Tx(1)
+		ep := e.m.epoch + 1 + int64(b.Rng.IntN(3))
+		r := e.w.Invoke(e.w.Alpha(), e.nm, "newEpoch", ep)
+		b.Tx(1)
+		rs := []*world.TxResult{r}
+		expOK := d >= 1
+		if expOK != r.Halted() {
+			b.Violation(fmt.Sprintf("newEpoch(%d) at epoch %d with a subscriber that calls newEpoch(%d) from its callback: expected success=%v, got %s %s", ep, e.m.epoch, ep+d, expOK, r.State, r.Fault), e.detail(rs, nil))
+		}
+		if r.Halted() {
+			var got, want []string
+			for _, ev := range r.Events {
+				if ev.Contract == e.nm && ev.Name == "NewEpoch" && len(ev.Items) == 1 {
+					got = append(got, fmt.Sprintf("NewEpoch(%d)", world.Int64(ev.Items[0])))
+				}
+				if _, ok := e.pid[ev.Contract]; ok && ev.Name == "Tick" && len(ev.Items) == 2 {
+					got = append(got, fmt.Sprintf("Tick(%d,%d)", world.Int64(ev.Items[0]), world.Int64(ev.Items[1])))
+				}
+			}
+			ticks := func(subs []util.Uint160, x int64) {
+				for _, sub := range subs {
+					if id, ok := e.pid[sub]; ok {
+						want = append(want, fmt.Sprintf("Tick(%d,%d)", id, x))
+					}
+				}
+			}
+			ticks(e.m.subs[:k+1], ep)
+			ticks(e.m.subs, ep+d)
+			want = append(want, fmt.Sprintf("NewEpoch(%d)", ep+d))
+			ticks(e.m.subs[k+1:], ep)
+			want = append(want, fmt.Sprintf("NewEpoch(%d)", ep))
+			if fmt.Sprint(got) != fmt.Sprint(want) {
+				b.Violation("nested tick: notifications differ from two complete ticks, the inner one inside the outer one's fan-out", e.detail(rs, map[string]any{"got": got, "want": want}))
+			}
+			if expOK {
+				for _, x := range []int64{ep, ep + d} {
+					e.m.histL[x] = e.m.legacyPublished()
+					e.m.hist2[x] = e.m.v2All()
+				}
+				e.m.epoch = ep + d
+				for _, sub := range e.m.subs {
+					if _, ok := e.pid[sub]; ok {
+						calls[sub] += 2
+					}
+				}
+				leb := e.w.Read(e.nm, "lastEpochBlock")
+				b.Read(1)
+				if st.delta != noDelta && (!leb.OK() || world.Int64(leb.Top())-int64(r.Block) != st.delta) {
+					b.Violation("nested tick: lastEpochBlock is not the height of the tick", e.detail(rs, nil))
+				}
+				e.m.tickBlock = world.Int64(leb.Top())
+				// the outer epoch's structured map is a published map too
+				if ln := e.w.Read(e.nm, "listNodes", ep); ln.OK() && len(ln.Stack) == 1 {
+					b.Read(1)
+					if g, err := parseV2List(ln.Stack[0]); err != nil || !g.equal(e.m.hist2[ep]) {
+						b.Violation(fmt.Sprintf("nested tick: listNodes(%d) differs from the map published at the outer epoch", ep), e.detail(rs, nil))
+					}
+				}
+				b.Hit("tick-re-entered-by-a-subscriber")
+			} else {
+				e.resyncEpoch()
+			}
+		} else {
+			if !r.Diff.Empty() {
+				b.Violation("failed tick changed storage", e.detail(rs, nil))
+			}
+			if expOK {
+				e.resyncEpoch()
+			} else {
+				b.Hit("tick-refused:subscriber-re-enters-with-a-stale-epoch")
+			}
+			// the failed transaction did not consume the arming
+			e.w.Invoke(nil, armed, "setReenter", e.nm, int64(0), false)
+			b.Tx(1)
+		}
+		checkProbeCalls()
+		e.checkNetmapState(rs)
+		b.Eval(fmt.Sprintf("tick-re-entered|d%d|pos%d/%d|%s", d, k, len(e.m.subs), r.State), true)
+		// the inner epoch is the current one now: a second tick onto it is stale
+		if r.Halted() && expOK {
+			doTick(ep+d, 0, nil)
+		}
+	}
+	if len(e.probes) > 0 {
+		reentrantTick([]int64{1, 0, 2, -1}[b.Index%4])
+	}
 	nops := 100
 	if b.Thorough() {
 		nops = 250
@@ -337,6 +446,10 @@ func runC06(b *runner.Batch) {
 			}
 			if e.m.epoch >= 1<<31 {
 				ep = e.m.epoch + 1
+			}
+			if b.Rng.IntN(16) == 0 && e.m.epoch < 1<<30 {
+				reentrantTick(runner.Pick(b.Rng, []int64{1, 1, 2, 0, -1, 3}))
+				continue
 			}
 			if b.Rng.IntN(8) == 0 {
 				// tick + candidate change in one block: the change comes after the tick in block order
@@ -432,4 +545,16 @@ func (e *env) canonAddNode(node int) *nmOp {
 	return &nmOp{kind: "addNode", args: []any{node2Item(addrs, attrs, nk.pub, 1)}, signers: s, sdesc: sd, class: e.presence(ph), expect: expEffect,
 		apply:  func(m *model) { m.v2[ph] = v2Cand{addrs: addrs, attrs: attrs, key: nk.pub, state: 1} },
 		events: []string{"AddNode:" + ph}}
+}
+
+// resyncEpoch re-reads the epoch after an outcome the model did not predict (a violation was filed already).
+func (e *env) resyncEpoch() {
+	if rd := e.w.Read(e.nm, "epoch"); rd.OK() && len(rd.Stack) == 1 {
+		e.m.epoch = world.Int64(rd.Stack[0])
+		if e.m.histL[e.m.epoch] == nil {
+			e.m.histL[e.m.epoch] = e.m.legacyPublished()
+			e.m.hist2[e.m.epoch] = e.m.v2All()
+		}
+		e.m.tickBlock = world.Int64(e.w.Read(e.nm, "lastEpochBlock").Top())
+	}
 }
